@@ -864,6 +864,54 @@ class Model:
                                           value=comp, lineno=a.lineno))
                     i += 2
                     continue
+                # l1 = []; l2 = []; for T in I: (if c: l1.append(x) else: l2.append(y))
+                #   ==>  l1 = [x for T in I if c]; l2 = [y for T in I if not c]   (fission)
+                c2 = stmts[i + 2] if i + 2 < len(stmts) else None
+                if kind == "list" and isinstance(tgt, ast.Name) and isinstance(b, (
+                        ast.Assign, ast.AnnAssign)) and isinstance(c2, ast.For) \
+                        and not c2.orelse:
+                    tgt2 = b.targets[0] if isinstance(b, ast.Assign) and len(b.targets) == 1 \
+                        else getattr(b, "target", None)
+                    val2 = b.value
+                    core = [x for x in c2.body if not isinstance(x, ast.Assert)]
+                    if isinstance(tgt2, ast.Name) and val2 is not None and empty(val2) == "list" \
+                            and len(core) == 1 and isinstance(core[0], ast.If):
+                        iff = core[0]
+
+                        def app(arm):
+                            arm = [x for x in arm if not isinstance(x, ast.Assert)]
+                            if len(arm) == 1 and isinstance(arm[0], ast.Expr) \
+                                    and isinstance(arm[0].value, ast.Call) \
+                                    and isinstance(arm[0].value.func, ast.Attribute) \
+                                    and arm[0].value.func.attr == "append" \
+                                    and isinstance(arm[0].value.func.value, ast.Name) \
+                                    and len(arm[0].value.args) == 1:
+                                return arm[0].value.func.value.id, arm[0].value.args[0]
+                            return None
+                        a1, a2 = app(iff.body), app(iff.orelse)
+                        names_ = {tgt.id, tgt2.id}
+
+                        def mentions(e):
+                            return any(isinstance(x, ast.Name) and x.id in names_
+                                       for x in ast.walk(e))
+                        if a1 and a2 and {a1[0], a2[0]} == names_ and not mentions(iff.test) \
+                                and not mentions(a1[1]) and not mentions(a2[1]) \
+                                and not mentions(c2.iter):
+                            for (nm, elt), neg in ((a1, False), (a2, True)):
+                                test = _cp(iff.test)
+                                if neg:
+                                    test = test.operand if isinstance(test, ast.UnaryOp) \
+                                        and isinstance(test.op, ast.Not) \
+                                        else ast.UnaryOp(op=ast.Not(), operand=test)
+                                out.append(ast.Assign(
+                                    targets=[ast.Name(id=nm, ctx=ast.Store())],
+                                    value=ast.ListComp(elt=_cp(elt), generators=[
+                                        ast.comprehension(target=_cp(c2.target),
+                                                          iter=_cp(c2.iter), ifs=[test],
+                                                          is_async=0)]),
+                                    lineno=a.lineno))
+                            i += 3
+                            continue
                 # x = A; if T(x): x = B(x)   ==>   x = B(A) if T(A) else A   (A a plain
                 # name or attribute chain: evaluating it twice changes nothing)
                 if isinstance(tgt, ast.Name) and isinstance(b, ast.If) and not b.orelse \
